@@ -9,7 +9,8 @@ import re
 
 from common import Rep, drive, Inconclusive
 
-AIRPORTS_JSON = "/repo/crates/rs1090/data/airports.json"
+import os
+AIRPORTS_JSON = os.path.join(os.environ.get("VERIF_REPO", "/repo"), "crates/rs1090/data/airports.json")
 
 RULE = ("a case is one string through the real parser; families: grammar-generated well-formed specifications "
         "(tcp/udp/ws/rtlsdr/short form x host x port x path x reference given as airport code or 'lat,lon', both '@' and '?'), "
